@@ -105,7 +105,7 @@ func (t *trigRec) dest(p orb.Point, bearing, distance float64) orb.Point {
 	aLon := d2r(p[0])
 	br := d2r(bearing)
 	dr := distance / orb.EarthRadius
-	bLat := t.asin(t.sin(aLat)*t.cos(dr) + t.cos(aLat)*t.sin(dr)*t.cos(br))
+	bLat := t.asin(math.Max(math.Min(t.sin(aLat)*t.cos(dr)+t.cos(aLat)*t.sin(dr)*t.cos(br), 1), -1))
 	bLon := aLon + t.atan2(t.sin(br)*t.sin(dr)*t.cos(aLat), t.cos(dr)-t.sin(aLat)*t.sin(bLat))
 	return orb.Point{r2d(bLon), r2d(bLat)}
 }
@@ -297,7 +297,8 @@ func runC18(op string, in []string) string {
 					t.haversine(ps[i], ps[i-1])
 				}
 			})
-			return fb(geo.Length(g)) + " " + fb(geo.LengthHaversine(g)) + " " + strconv.Itoa(n) + sb.String() + " " + t.String()
+			// LengthHaversign is the deprecated misspelt twin of LengthHaversine (geo/length.go:18)
+			return fb(geo.Length(g)) + " " + fb(geo.LengthHaversine(g)) + " " + fb(geo.LengthHaversign(g)) + " " + strconv.Itoa(n) + sb.String() + " " + t.String()
 		case "along":
 			ls := orb.LineString(r.pts())
 			d := r.f()
@@ -507,6 +508,18 @@ func geoGeom(r *rand.Rand, depth int) orb.Geometry {
 	}
 }
 
+// alongDistances: 0, every running prefix length of ls — accumulated exactly as
+// PointAtDistanceAlongLine accumulates `travelled` — and thereby the total.
+func alongDistances(ls []orb.Point) []float64 {
+	out := []float64{0}
+	travelled := 0.0
+	for i := 1; i < len(ls); i++ {
+		travelled += geo.DistanceHaversine(ls[i-1], ls[i])
+		out = append(out, travelled)
+	}
+	return out
+}
+
 func genC18(c *Ctx) {
 	r := c.Rng
 	if c.Shard == 0 {
@@ -526,6 +539,22 @@ func genC18(c *Ctx) {
 			c.Case("len", gs(g))
 		}
 		c.Case("along", "0 "+fb(1))
+		// PointAtDistanceAlongLine at the equality cases of `expected < actual` (distance.go:114):
+		// distance 0, every running prefix length (summed as the code sums them), the total; on a line
+		// with a zero-length segment in the middle and on a plain one
+		for _, ls := range [][]orb.Point{{{0, 0}, {1, 0}, {1, 0}, {1, 1}}, {{0, 0}, {0, 0}, {1, 1}}, {{10, 50}, {11, 51}, {12, 50}}} {
+			for _, ad := range alongDistances(ls) {
+				c.Case("along", spts(ls)+" "+fb(ad))
+			}
+		}
+		// BoundPad with the +-90 / +-180 clamps binding (bound.go:54-58)
+		c.Case("pad", sbound(orb.Bound{Min: orb.Point{0, 88.5}, Max: orb.Point{1, 89}})+" "+fb(2e5))
+		c.Case("pad", sbound(orb.Bound{Min: orb.Point{-1, -89}, Max: orb.Point{0, -88.5}})+" "+fb(2e5))
+		c.Case("pad", sbound(orb.Bound{Min: orb.Point{-179.5, -1}, Max: orb.Point{179.5, 1}})+" "+fb(1e5))
+		c.Case("pad", sbound(orb.Bound{Min: orb.Point{-10, -10}, Max: orb.Point{10, 10}})+" "+fb(3e7))
+		// destination within metres of a pole (finding C18-dest-near-pole-asin)
+		c.Case("dest", sp(orb.Point{10, 60})+" "+fb(0)+" "+fb(3339584.713798207))
+		c.Case("dest", sp(orb.Point{-180, 89})+" "+fb(0)+" "+fb(111319.39079327357))
 		c.Case("area", "nil")
 		c.Case("len", "nil")
 		for _, s := range []string{"nR", "nPG", "nMPG", "nC", "nLS", "nMLS", "nMP"} {
@@ -583,6 +612,22 @@ func genC18(c *Ctx) {
 			d = r.Float64() * 1e4
 		}
 		c.Case("dest", sp(p)+" "+fb(brg)+" "+fb(d))
+		if k%16 == 3 {
+			// head for a pole: due north / south (or a hair off), landing within 10^-3..10^4 m of it
+			// (asin is ill-conditioned there); only when the pole is within the 5000 km of the quantifier
+			pb, pole := 0.0, 90.0
+			if p[1] < 0 {
+				pb, pole = 180, -90
+			}
+			if r.Intn(3) == 0 {
+				pb += (r.Float64() - 0.5) * math.Pow(10, -float64(r.Intn(8)))
+			}
+			toPole := d2r(math.Abs(pole-p[1])) * orb.EarthRadius
+			off := (r.Float64()*2 - 1) * math.Pow(10, float64(r.Intn(8)-3))
+			if pd := toPole + off; pd >= 0 && pd <= 5e6 {
+				c.Case("dest", sp(p)+" "+fb(pb)+" "+fb(pd))
+			}
+		}
 
 		n := 3 + r.Intn(10)
 		if r.Intn(15) == 0 {
@@ -601,12 +646,35 @@ func genC18(c *Ctx) {
 			ls := geoRing(r, 1+r.Intn(6), false)
 			tot := geo.LengthHaversine(orb.LineString(ls))
 			ad := r.Float64() * tot * 1.2
-			if r.Intn(10) == 0 {
+			switch r.Intn(10) {
+			case 0:
 				ad = -1
+			case 1, 2: // exactly 0, a running prefix length, the total: equality in `expected < actual`
+				ds := alongDistances(ls)
+				ad = ds[r.Intn(len(ds))]
 			}
 			c.Case("along", spts(ls)+" "+fb(ad))
 			c.Case("bap", sp(p)+" "+fb([]float64{d, r.Float64() * 1e5, 2e7}[r.Intn(3)]))
-			c.Case("pad", sbound(b)+" "+fb(r.Float64()*1e5))
+			pad := r.Float64() * 1e5
+			pb := b
+			switch r.Intn(4) {
+			case 0: // up to 300 km: reaches past +-90 from the +-89 boxes, past +-180 at high latitude
+				pad = r.Float64() * 3e5
+			case 1: // a box hugging the +-89 / +-180 limits of the quantifier
+				pad = r.Float64() * 3e5
+				w, h := pb.Max[0]-pb.Min[0], pb.Max[1]-pb.Min[1]
+				if r.Intn(2) == 0 {
+					pb.Max[1], pb.Min[1] = 89, 89-h
+				} else {
+					pb.Min[1], pb.Max[1] = -89, -89+h
+				}
+				if r.Intn(2) == 0 {
+					pb.Max[0], pb.Min[0] = 180, 180-w
+				} else if r.Intn(2) == 0 {
+					pb.Min[0], pb.Max[0] = -180, -180+w
+				}
+			}
+			c.Case("pad", sbound(pb)+" "+fb(pad))
 		}
 	}
 }
